@@ -93,7 +93,7 @@ def gen_fa(rng, kind=None, max_states=5, max_symbols=3, max_trans=9, plain_symbo
         hashes = {k: v for k, v in hashes.items() if not k.startswith("Y:")} or None
     case = {"kind": kind, "valmode": valmode, "symmode": symmode, "states": states,
             "symbols": symbols, "hash": hashes, "hashmode": mode, "trans": trans, "starts": starts,
-            "finals": finals, "ctor": rng.chance(0.25), "ctor_all": rng.chance(0.5), "ctor_tf": rng.chance(0.12), "words_as_symbols": rng.chance(0.3),
+            "finals": finals, "ctor": rng.chance(0.25), "ctor_all": rng.chance(0.5), "ctor_tf": rng.chance(0.12), "words_as_symbols": rng.chance(0.3), "words_form": rng.pick(["list", "list", "list", "tuple", "iter"]),
             "extra_symbols": ([rng.pick(["x", "y"])] if rng.chance(0.12) else []),
             "extra_states": []}
     if rng.chance(0.18):
@@ -298,6 +298,13 @@ def word_values(case, word_keys):
     return [back[k] for k in word_keys]
 
 
+def word_arg(case, word_keys):
+    """the word as handed to accepts(): a list, a tuple or a one-shot iterator (`word: iterable of symbols`)"""
+    w = word_values(case, word_keys)
+    f = case.get("words_form")
+    return tuple(w) if f == "tuple" else iter(w) if f == "iter" else w
+
+
 def extract(fa):
     """structure of a real automaton, read through the public API only"""
     from pyformlang.finite_automaton import Epsilon
@@ -360,6 +367,8 @@ def shrink_fa(case):
         yield mk(ghost_start=None)
     if case.get("ctor_tf"):
         yield mk(ctor_tf=False)
+    if case.get("words_form", "list") != "list":
+        yield mk(words_form="list")
     if case.get("ctor"):
         yield mk(ctor=False)
     if case.get("ctor_all"):
